@@ -422,3 +422,24 @@ MUTANTS += [
     T("c18-twin-duration-field-gt0", ["C18"], TK, "    duration: PositiveInt\n", "    duration: int = Field(gt=0)\n"),
     T("c18-twin-size-ge-two", ["C18"], RS, "    size: int = Field(gt=1)", "    size: int = Field(ge=2)"),
 ]
+
+
+ALL = ["C01", "C02", "C03", "C04", "C05", "C06", "C07", "C08", "C09", "C10", "C11", "C12", "C13", "C14", "C15", "C16", "C17", "C18", "C19"]
+# whole-package behaviour preserving transformations (AST computed): every check must stay silent
+MUTANTS += [
+    {"id": "global-twin-unparse", "kind": "twin", "props": ALL, "global": "unparse"},
+    {"id": "global-twin-flip-comparisons", "kind": "twin", "props": ALL, "global": "flip-comparisons"},
+    {"id": "global-twin-rename-locals", "kind": "twin", "props": ALL, "global": "rename-locals"},
+]
+
+MUTANTS += [
+    B("c06-sorted-copy-half-guard", ["C06"], RC, "                condition_only_scheduled_tasks = z3.And(\n                    sorted_ends[i - 1] >= 0, sorted_starts[i] >= 0\n                )\n                conditions = [condition_only_scheduled_tasks]", "                condition_only_scheduled_tasks = sorted_starts[i] >= 0\n                conditions = [condition_only_scheduled_tasks]"),
+    B("c06-contiguous-half-guard", ["C06"], TC, "            condition_only_scheduled_tasks = z3.And(\n                sorted_ends[i - 1] >= 0, sorted_starts[i] >= 0\n            )\n            # finally create the constraint\n            new_cstr = z3.Implies(z3.Or(condition_only_scheduled_tasks), asst)", "            condition_only_scheduled_tasks = z3.And(\n                sorted_starts[i] >= 0\n            )\n            # finally create the constraint\n            new_cstr = z3.Implies(z3.Or(condition_only_scheduled_tasks), asst)"),
+]
+
+MUTANTS += [
+    B("c04-periodic-unavailable-fold-wrong", ["C04"], RC, "                            (start_task_i - self.offset) % self.period + duration\n                            <= interval_lower_bound,", "                            (start_task_i - self.offset) % self.period\n                            <= interval_lower_bound,"),
+    B("c04-periodic-interrupted-fixed-fold-wrong", ["C04"], RC, "                                folded_start_task_i + duration <= interval_lower_bound,", "                                folded_start_task_i + duration < interval_lower_bound,"),
+    B("c01-base-drops-duplicates-silently", ["C01", "C03", "C10"], BS, '            raise AssertionError(f"assertion {z3_assertion} already added.")', '            return False'),
+    B("c01-base-get-assertions-partial", ["C01", "C10"], BS, "        return self._z3_assertions\n", "        return self._z3_assertions[1:]\n"),
+]
